@@ -68,6 +68,10 @@ def _run_case_sym(args):
         out["paths"] = res.paths
         out["aborted"] = res.aborted
         out["unsupported"] = res.unsupported
+        vac = []
+        for c_ in ctxs:
+            vac += getattr(c_, "vacuous", [])
+        out["vacuous"] = sorted(set(vac))
         out["budget_hit"] = res.budget_hit
         out["solver_calls"] = res.solver_calls
         out["lemmas"] = lem[0]
@@ -223,6 +227,9 @@ class Report:
                 self.undecided.append("%s: unsupported: %s" % (r["case"], "; ".join(r["unsupported"][:3])))
             if r["budget_hit"]:
                 self.undecided.append("%s: path budget hit" % r["case"])
+            for v in r.get("vacuous", []):
+                # a loop body whose path condition became inconsistent: the invariant was not checked on that path
+                self.undecided.append("%s: vacuity guard: %s" % (r["case"], v))
             if r["paths"] - r["aborted"] <= 0 and not r["unsupported"]:
                 self.crashes.append("%s: vacuous (no completed path)" % r["case"])
             if not r["obligations"] and not r["unsupported"] and not r["crash"]:
